@@ -327,6 +327,15 @@ func (p *Prog) ungated(fn *ssa.Function, ev ssa.Value, fs []Fact, isGate map[*ss
 		if sig != nil && p.pairKind(sig) != "" && idx == 1 {
 			return nil // the callee is itself subject to this rule (or is a gate)
 		}
+		// a module helper of another shape (value, ok, error): judge the
+		// errors it returns where it returns them
+		if h := c.Call.StaticCallee(); h != nil && inModule(h) && h.Blocks != nil && sig != nil && lastIsError(sig) && idx == sig.Results().Len()-1 && !p.isErrCtor(h) {
+			var out []string
+			for _, r := range returnsOf(h) {
+				out = append(out, p.ungated(h, r.Results[len(r.Results)-1], factsAt(r.Instr.Block()), isGate, seen, depth+1)...)
+			}
+			return out
+		}
 	}
 	if p.verboseFact(fs, true) {
 		return nil // returned where errors are known to be reported, wherever it was built
